@@ -650,6 +650,31 @@ void reb_simulation_init(struct reb_simulation* r){
 }
 
 
+// Synchronizes the simulation on the exit path of the integration loop, i.e. in-between timesteps.
+// The web server might be serializing the simulation in its own thread at that time. It holds the
+// mutex while doing so. Taking the mutex here makes sure it never sees a half synchronized simulation.
+static void reb_simulation_synchronize_between_steps(struct reb_simulation* const r){
+#ifdef SERVER
+    if (r->server_data){
+#ifdef _WIN32
+        WaitForSingleObject(r->server_data->mutex, INFINITE);
+#else // _WIN32
+        pthread_mutex_lock(&(r->server_data->mutex)); 
+#endif // _WIN32
+    }
+#endif //SERVER
+    reb_simulation_synchronize(r);
+#ifdef SERVER
+    if (r->server_data){
+#ifdef _WIN32
+        ReleaseMutex(r->server_data->mutex);
+#else // _WIN32
+        pthread_mutex_unlock(&(r->server_data->mutex));
+#endif // _WIN32
+    }
+#endif //SERVER
+}
+
 int reb_check_exit(struct reb_simulation* const r, const double tmax, double* last_full_dt){
     if(r->status <= REB_STATUS_SINGLE_STEP){
         if(r->status == REB_STATUS_SINGLE_STEP){
@@ -690,12 +715,12 @@ int reb_check_exit(struct reb_simulation* const r, const double tmax, double* la
                         r->status = REB_STATUS_SUCCESS;
                     }else{
                         // not there yet, do another step.
-                        reb_simulation_synchronize(r);
+                        reb_simulation_synchronize_between_steps(r);
                         r->dt = tmax-r->t;
                     }
                 }else{
                     r->status = REB_STATUS_LAST_STEP; // Do one small step, then exit.
-                    reb_simulation_synchronize(r);
+                    reb_simulation_synchronize_between_steps(r);
                     if (r->dt_last_done!=0.){   // If first timestep is also last, do not use dt_last_done (which would be 0.)
                         *last_full_dt = r->dt_last_done; // store last full dt before decreasing the timestep to match finish time
                     }
@@ -878,7 +903,7 @@ static void* reb_simulation_integrate_raw(void* args){
             usleep(r->usleep);
         }
     }
-    reb_simulation_synchronize(r);
+    reb_simulation_synchronize_between_steps(r);
     if(r->exact_finish_time==1){ // if finish_time = 1, r->dt could have been shrunk, so set to the last full timestep
         r->dt = last_full_dt; 
     }
